@@ -1,7 +1,182 @@
-(* Properties_C55.v — C55 (placeholder while the development is being built) *)
-Require Import SquidV.Bytes SquidV.RwlockModel SquidV.RwlockProofs SquidV.StoremapModel SquidV.StoremapProofs.
+(* Properties_C55.v — C55: the shared store index (src/ipc/StoreMap.cc on src/ipc/ReadWriteLock.cc) exposes only
+   complete, stable entries. Statements only; proofs live in StoremapLock.v and StoremapProofs.v.
+
+   Vocabulary (StoremapModel.v):
+     sinit n scripts       a map of n anchors / n slices (StoreMap::Init(path, n)), one process per script, all idle
+     sexec st sched        each schedule entry lets the named process perform ONE atomic operation (or its use step)
+     sreach n scripts sched  the state after running `sched` from `sinit n scripts`: ANY number of processes, ANY
+                           scripts over openForWriting(+setKey) / openForWritingAt / append-a-slice / startAppending /
+                           closeForWriting / abortWriting / openForReading / chain walk / closeForReading /
+                           closeForReadingAndFreeIdle / freeEntry / freeEntryByKey, ANY interleaving of single atomic
+                           operations, including those inside the ReadWriteLock methods
+     pri f th, tra f th    the two shares of process th in the lock of anchor f, as processes of RwlockModel (C54):
+                           through the entry it opens/holds, and through its freeEntry/freeEntryByKey calls
+     holdsP f th = Some m  th is between two lock calls of its primary activity and holds m of anchor f's lock
+                           (MIdle | MShared | MExcl | MAppend (writer after startAppending) | MBusy (abortWriting of an
+                           appending writer that found readers) | MHeaders (not used by the modelled methods))
+     isReader th f k       th's openForReading(k) returned anchor f and th has not yet started to close it
+     exclOn f th           an activity of th is between lock calls holding anchor f's lock exclusively
+     MFree s               event: StoreMap returned slice s to the pool (StoreMapCleaner::noteFreeMapSlice)
+     MRet o (OOpenR (Some k)) m   event: openForReading under key k succeeded *)
+Require Import SquidV.Bytes SquidV.RwlockModel SquidV.RwlockProofs SquidV.StoremapModel SquidV.StoremapLock SquidV.StoremapProofs.
 Local Open Scope Z_scope.
 
-Theorem C55_reach_nil : forall n scripts, sreach n scripts [] = sinit n scripts.
-Proof. exact sreach_nil. Qed.
-Print Assumptions C55_reach_nil.
+(* --- composition with C54: the counting invariant of the read/write lock holds for EVERY anchor in every
+       reachable state, and no assert() about the lock state (writing()/reading()) can fail --- *)
+Theorem C55_lock_invariant_every_anchor : forall n scripts sched, LInvC (sreach n scripts sched).
+Proof. exact sreach_linv. Qed.
+Print Assumptions C55_lock_invariant_every_anchor.
+
+Theorem C55_no_lock_assertion_fires : forall n scripts sched i th,
+  nthN i (mths (sreach n scripts sched)) = Some th -> tpc th <> CrashedL.
+Proof. exact reach_no_lock_assert. Qed.
+Print Assumptions C55_no_lock_assertion_fires.
+
+(* --- no two writers hold the same entry (exclusive, appending or aborting alike) --- *)
+Theorem C55_at_most_one_writer_per_entry : forall n scripts sched f a i j thi thj x y,
+  let st := sreach n scripts sched in
+  nthN f (anchors (msh st)) = Some a ->
+  i <> j -> nthN i (mths st) = Some thi -> nthN j (mths st) = Some thj ->
+  holdsP f thi = Some x -> holdsP f thj = Some y -> is_writer x = true -> is_writer y = true -> False.
+Proof. exact reach_one_writer. Qed.
+Print Assumptions C55_at_most_one_writer_per_entry.
+
+(* --- a reader holds an entry only under the requested key ... --- *)
+Theorem C55_reader_key_matches : forall n scripts sched t th f k a,
+  let st := sreach n scripts sched in
+  nthN t (mths st) = Some th -> isReader th f k -> nthN f (anchors (msh st)) = Some a -> akey a = k.
+Proof. exact reach_reader_key. Qed.
+Print Assumptions C55_reader_key_matches.
+
+(* --- ... and only while the entry is complete or being appended: any writer of the entry coexisting with the
+       reader has called startAppending (MAppend), or is the appending writer inside abortWriting that found the
+       reader and is about to mark the entry and leave (MBusy) --- *)
+Theorem C55_reader_only_with_complete_or_appending_entry : forall n scripts sched f a i j thi thj k y,
+  let st := sreach n scripts sched in
+  nthN f (anchors (msh st)) = Some a ->
+  i <> j -> nthN i (mths st) = Some thi -> nthN j (mths st) = Some thj ->
+  isReader thi f k -> holdsP f thj = Some y -> is_writer y = true -> y = MAppend \/ y = MBusy.
+Proof. exact reach_reader_vs_writer. Qed.
+Print Assumptions C55_reader_only_with_complete_or_appending_entry.
+
+(* the same for freeEntry/freeEntryByKey calls of any process (the reader itself included): none of them holds the
+   entry exclusively while it is being read *)
+Theorem C55_reader_excludes_exclusive_deleter : forall n scripts sched f a i j thi thj k y,
+  let st := sreach n scripts sched in
+  nthN f (anchors (msh st)) = Some a ->
+  nthN i (mths st) = Some thi -> nthN j (mths st) = Some thj ->
+  isReader thi f k -> holdsT f thj = Some y -> y = MIdle \/ y = MShared \/ y = MHeaders \/ y = MAppend \/ y = MBusy.
+Proof. exact reach_reader_vs_transient. Qed.
+Print Assumptions C55_reader_excludes_exclusive_deleter.
+
+(* --- a successful openForReading saw, at the moment it succeeded, an anchor that is not waitingToBeFreed and
+       carries the requested key --- *)
+Theorem C55_marked_entry_is_not_opened : forall n scripts sched t st' evs b c k m',
+  let st := sreach n scripts sched in
+  sstep st t = (st', evs, b) -> In (t, MRet c (OOpenR (Some k)) m') evs ->
+  exists f a, nthN f (anchors (msh st)) = Some a /\ wtbf a = false /\ akey a = k.
+Proof. exact reach_open_saw_unmarked. Qed.
+Print Assumptions C55_marked_entry_is_not_opened.
+
+(* --- the key of an anchor changes, and a set waitingToBeFreed mark disappears, only by a step of a process that
+       holds the anchor exclusively (rewind() while freeing the entry, setKey() of the writer that created it) --- *)
+Theorem C55_key_and_mark_change_only_under_exclusive_lock : forall n scripts sched t st' evs b f a a',
+  let st := sreach n scripts sched in
+  sstep st t = (st', evs, b) ->
+  nthN f (anchors (msh st)) = Some a -> nthN f (anchors (msh st')) = Some a' ->
+  akey a' <> akey a \/ (wtbf a = true /\ wtbf a' = false) ->
+  exists th, nthN t (mths st) = Some th /\ exclOn f th.
+Proof. exact reach_step_protected. Qed.
+Print Assumptions C55_key_and_mark_change_only_under_exclusive_lock.
+
+(* --- hence, while a reader holds an entry, whatever any process does: the key stays and a deletion mark stays
+       (a deleted entry does not become openable again under its readers) --- *)
+Theorem C55_entry_stable_while_read : forall n scripts sched t st' evs b f a a' i thi k,
+  let st := sreach n scripts sched in
+  sstep st t = (st', evs, b) ->
+  nthN f (anchors (msh st)) = Some a -> nthN f (anchors (msh st')) = Some a' ->
+  nthN i (mths st) = Some thi -> isReader thi f k ->
+  akey a' = akey a /\ (wtbf a = true -> wtbf a' = true).
+Proof. exact reach_stable_while_read. Qed.
+Print Assumptions C55_entry_stable_while_read.
+
+(* --- slices: StoreMap gives a slice back to the pool only in freeChainAt() run by an activity that holds
+       exclusively the anchor g whose chain it walks; so no slice is freed through the chain of an entry while a
+       process has that entry open for reading.
+       PARTIAL: not proved here: that the chain walked from anchor g only contains slices that a writer of g put
+       there (chains of different entries are disjoint); the correspondence runs check it on every explored
+       schedule through the oracle's slice-ownership table --- *)
+Theorem C55_slices_not_freed_while_read_partial : forall n scripts sched t st' evs b sid,
+  let st := sreach n scripts sched in
+  sstep st t = (st', evs, b) -> In (t, MFree sid) evs ->
+  exists th g p, nthN t (mths st) = Some th /\ (tpc th = Prim g p \/ tpc th = Tran g p) /\
+    forall a i thi k, nthN g (anchors (msh st)) = Some a -> nthN i (mths st) = Some thi -> ~ isReader thi g k.
+Proof. exact reach_no_free_while_read. Qed.
+Print Assumptions C55_slices_not_freed_while_read_partial.
+
+Theorem C55_slices_freed_only_by_exclusive_holder : forall n scripts sched t st' evs b sid,
+  let st := sreach n scripts sched in
+  sstep st t = (st', evs, b) -> In (t, MFree sid) evs ->
+  exists th g p, nthN t (mths st) = Some th /\ exclOn g th /\ (tpc th = Prim g p \/ tpc th = Tran g p).
+Proof. exact reach_free_by_exclusive. Qed.
+Print Assumptions C55_slices_freed_only_by_exclusive_holder.
+
+(* --- after every process closed what it had opened, the lock of every anchor is idle again and can be taken in
+       each of the three ways (lockExclusive is the first thing openForWritingAt and freeEntry do) --- *)
+Theorem C55_all_closed_entries_lockable_again : forall n scripts sched f a,
+  let st := sreach n scripts sched in
+  allClosed st -> nthN f (anchors (msh st)) = Some a ->
+  lk a = idle_shared /\ probe (lk a) = Some [EvRet OpLX true; EvRet OpLS true; EvRet OpLH true].
+Proof. exact reach_idle_when_all_closed. Qed.
+Print Assumptions C55_all_closed_entries_lockable_again.
+
+(* --- the hypotheses are satisfiable, non-trivially --- *)
+Definition k1 : key := (1%N, 0%N).
+Definition rep (t : N) (k : nat) : list N := repeat t k.
+
+(* a reader holds entry 1 under key k1 while its writer is appending: the exception in the property is real *)
+Example C55_ex_reader_with_appending_writer :
+  let st := sreach 4 [[KW k1; KAdd 2; KApp; KAdd 3]; [KR k1; KLook]] (rep 0 26 ++ rep 1 7) in
+  option_map cm (nthN 0%N (mths st)) = Some (CAppend 1 0) /\
+  option_map (holdsP 1) (nthN 0%N (mths st)) = Some (Some MAppend) /\
+  option_map cm (nthN 1%N (mths st)) = Some (CRead 1 k1) /\
+  option_map (holdsP 1) (nthN 1%N (mths st)) = Some (Some MShared) /\
+  option_map akey (nthN 1%N (anchors (msh st))) = Some k1.
+Proof. vm_compute. repeat split; reflexivity. Qed.
+
+(* a writer holds entry 1 exclusively while another process is inside openForReading on it; the reader fails *)
+Example C55_ex_exclusive_writer_reader_fails :
+  match srun_case 4 [[KW k1; KAdd 2]; [KR k1]] (rep 0 13 ++ rep 1 9) with
+  | Some (st, evs, _) =>
+      option_map (holdsP 1) (nthN 0%N (mths st)) = Some (Some MExcl) /\
+      In (1%N, MRet (KR k1) (OOpenR None) CIdle) evs
+  | None => False
+  end.
+Proof. vm_compute. split; [reflexivity | tauto]. Qed.
+
+(* a successful open is reported, and a later freeEntry by another process only marks the entry (the reader stays) *)
+Example C55_ex_open_event_and_mark :
+  match srun_case 4 [[KW k1; KAdd 2; KCw; KR k1]; [KF 1]] (rep 0 40 ++ rep 1 12) with
+  | Some (st, evs, _) =>
+      In (0%N, MRet (KR k1) (OOpenR (Some k1)) (CRead 1 k1)) evs /\ In (1%N, MRet (KF 1) (OFree true) CIdle) evs /\
+      option_map wtbf (nthN 1%N (anchors (msh st))) = Some true /\
+      option_map akey (nthN 1%N (anchors (msh st))) = Some k1
+  | None => False
+  end.
+Proof. vm_compute. repeat split; try reflexivity; tauto. Qed.
+
+(* slices are given back to the pool when the entry is freed *)
+Example C55_ex_slices_freed :
+  match srun_case 4 [[KW k1; KAdd 2; KAdd 3; KCw; KF 1]] [] with
+  | Some (st, evs, _) => In (0%N, MFree 0) evs /\ In (0%N, MFree 1) evs /\ owner (msh st) = [None; None; None; None]
+  | None => False
+  end.
+Proof. vm_compute. repeat split; try reflexivity; tauto. Qed.
+
+(* everybody closed: the hypothesis of the last theorem holds after a run with real contention *)
+Example C55_ex_all_closed :
+  match srun_case 4 [[KW k1; KAdd 2; KApp; KAdd 3; KCw]; [KR k1; KLook; KCr]; [KK k1]] (rep 0 26 ++ rep 1 12 ++ rep 2 20) with
+  | Some (st, evs, _) => closedb st = true
+  | None => False
+  end.
+Proof. vm_compute. reflexivity. Qed.
